@@ -28,11 +28,14 @@ from pytype.tools.analyze_project import pytype_runner
 
 N = param("C19_N", quick=3, thorough=4)
 NKINDS = param("C19_NKINDS", quick=5, thorough=5)
-NEDGES = N * (N - 1)
+DAG = param("C19_DAG", quick=0, thorough=0)          # 1: only edges i -> j with j < i
+ALL_DIRECT = param("C19_ALL_DIRECT", quick=0, thorough=0)  # 1: every module is requested
+NEDGES = N * (N - 1) // 2 if DAG else N * (N - 1)
 SEL = Tuple[(int,) * (N + NEDGES)]
 
-K_DIRECT, K_LOCAL, K_BUILTIN, K_SYSTEM, K_EXT = range(5)
-KIND_NAMES = ["Direct", "Local", "Builtin", "System", "System(pytype_extensions)"]
+K_DIRECT, K_LOCAL, K_BUILTIN, K_SYSTEM, K_EXT, K_STUB = range(6)
+KIND_NAMES = ["Direct", "Local", "Builtin", "System", "System(pytype_extensions)",
+              "Local stub (.pyi)"]
 
 # Directory names with every special character, alone and adjacent to each
 # other (`$ `, `$:`, `$$`, ` :`), so that escaping is exercised in context.
@@ -42,6 +45,8 @@ OUT = "/out dir/$o:1 :$"
 
 
 def sel_ok(s):
+  if ALL_DIRECT:
+    return all([all([k == K_DIRECT for k in s[:N]]), all_inrange(s[N:], 0, 2)])
   return all([all_inrange(s[:N], 0, NKINDS), all_inrange(s[N:], 0, 2),
               any([k == K_DIRECT for k in s[:N]])])
 
@@ -49,8 +54,8 @@ def sel_ok(s):
 def shard_key(s):
   key = 0
   for x in s[:N]:
-    key = key * 5 + x
-  for x in s[N:N + 4]:
+    key = key * 6 + x
+  for x in s[N:N + (10 if ALL_DIRECT else 4)]:
     key = key * 2 + x
   return key
 
@@ -61,7 +66,7 @@ def decode(s):
   p = N
   for i in range(N):
     for j in range(N):
-      if i != j:
+      if i != j and (j < i or not DAG):
         if conc(s[p], 2):
           edges.append((i, j))
         p += 1
@@ -75,6 +80,8 @@ def mod_name(i, kind):
 def mod_path(i, kind):
   if kind in (K_DIRECT, K_LOCAL):
     return "%s/m%d.py" % (PROJ, i)
+  if kind == K_STUB:
+    return "%s/m%d.pyi" % (PROJ, i)
   if kind == K_EXT:
     return "%s/pytype_extensions/m%d.py" % (SYS, i)
   return "%s/m%d.py" % (SYS, i)
@@ -91,7 +98,7 @@ def make_graph(kinds, edges):
     if k == K_DIRECT:
       g.provenance[path] = importlab_resolve.Direct(path, name)
       g.sources.add(path)
-    elif k == K_LOCAL:
+    elif k in (K_LOCAL, K_STUB):
       g.provenance[path] = importlab_resolve.Local(path, name, None)
     elif k == K_BUILTIN:
       g.provenance[path] = importlab_resolve.Builtin(path, name)
@@ -298,7 +305,8 @@ def check_plan(kinds, edges):
   if sorted(checked) != sorted(requested):
     problems.append("checked %r, requested %r" % (sorted(checked), sorted(requested)))
   # inputs are real module paths, module variable is the module's name
-  path_to_idx = {mod_path(i, k): i for i, k in enumerate(kinds)}
+  # type stubs in the import graph are not analysed: no statement, never an input
+  path_to_idx = {mod_path(i, k): i for i, k in enumerate(kinds) if k != K_STUB}
   for st in stmts:
     src = st["inputs"][0] if st["inputs"] else None
     if src not in path_to_idx:
@@ -344,12 +352,23 @@ def check_plan(kinds, edges):
     if src in path_to_idx and not out.endswith(pytype_runner.FIRST_PASS_SUFFIX):
       i = path_to_idx[src]
       shorts = {s for s, _ in items}
-      for (a, b) in edges:
-        if a == i:
-          want = mod_name(b, kinds[b]).replace(".", "/")
-          if want not in shorts:
-            problems.append("%s imports %s but its imports map has no entry "
-                            "%s" % (out, mod_name(b, kinds[b]), want))
+      # direct imports, looking through type stubs (a source that imports a stub
+      # inherits the stub's source dependencies)
+      wanted, todo, seen = set(), [i], {i}
+      while todo:
+        a = todo.pop()
+        for (x, b) in edges:
+          if x == a and b not in seen:
+            seen.add(b)
+            if kinds[b] == K_STUB:
+              todo.append(b)
+            else:
+              wanted.add(b)
+      for b in sorted(wanted):
+        want = mod_name(b, kinds[b]).replace(".", "/")
+        if want not in shorts:
+          problems.append("%s imports %s but its imports map has no entry "
+                          "%s" % (out, mod_name(b, kinds[b]), want))
   return problems
 
 
